@@ -1,5 +1,5 @@
 use clap::{Arg, Command};
-use std::{fs::File, path::Path};
+use std::{fs::File, io::Write, path::Path};
 use zeep_lib::{
     reader::{WriteXml, XmlReader},
     utils::read_input_file_and_xsd_files_at_path,
@@ -35,7 +35,12 @@ fn main() {
 
     let output_file = to_file_name.map_or_else(|| from_file_path.with_extension("rs"), |f| Path::new(f).to_path_buf());
 
-    let mut file = File::create(output_file).expect("can not create file");
+    // generate everything in memory first: when generation fails, an existing output file is
+    // left untouched
     let document = XmlReader::read_xml(&files).expect("can not read xml");
-    document.write_xml(&mut file).expect("can not write xml");
+    let mut generated = Vec::new();
+    document.write_xml(&mut generated).expect("can not write xml");
+
+    let mut file = File::create(output_file).expect("can not create file");
+    file.write_all(&generated).expect("can not write file");
 }
